@@ -24,7 +24,10 @@ def demo_setup():
     if rc != 0:
         return None
     # the demo source name: a .cpp mentioned in the added lines that does not exist yet
-    names = re.findall(r"^\+\s*([A-Za-z0-9_\-./]+\.cpp)\s*$", cm, re.M)
+    names = []
+    for line in cm.splitlines():
+        if line.startswith("+") and not line.startswith("+++") and not line.lstrip("+ ").startswith("#"):
+            names += re.findall(r"([A-Za-z0-9_./-]+[.]cpp)", line)
     target = None
     for nm in names:
         path = os.path.join(wt, "test", nm)
@@ -36,8 +39,10 @@ def demo_setup():
     return m.group(1) if m else None
 
 def run_demo(tname):
-    rc, out = sh(f"ninja -C {B} -j8 boosttest-test-{tname} 2>&1 | tail -3")
     exe = os.path.join(B, "Bin", "RelWithDebInfo", f"boosttest-test-{tname}")
+    if os.path.exists(exe):
+        os.unlink(exe)  # never run a stale binary
+    rc, out = sh(f"ninja -C {B} -j8 boosttest-test-{tname} 2>&1 | tail -3")
     if not os.path.exists(exe):
         return None
     rc, out = sh(f"timeout 600 {exe} 2>&1 | tail -5; exit ${{PIPESTATUS:-0}}")
